@@ -11,8 +11,11 @@ OBLIGATIONS = [
     ob('C01.prologue', 'verif_frag::traversal::c01_prologue', 'prologue of visit_dir (verbatim): a directory is skipped up front iff symlinks are followed and it was already visited, for all depth options', units=['traversal']),
     dict(id='C01.rootopt', engine='V', verus_fn='Parser::parse_root_options', label='C01.rootopt', complete=True, bound=None, units=[], harness='verus:Parser::parse_root_options', tier='quick',
          desc='real parse_root_options, every token vector: an option list made only of depth options (`mindepth N`, `maxdepth N`, `depth N`, any letter case, N = the u32 the word denotes) that ends at the end of the input or at a non-word token yields min_depth / max_depth exactly as written (last one wins, defaults 0 / 0 = unlimited, nothing else set) and leaves the terminating token for the caller'),
+    ob('C01.walk.window.bfs', 'verif_frag::walk::c01_walk_window_bfs', 'the WHOLE real visit_dir (verbatim on a scripted six-node, three-level file system), breadth-first: for every mindepth / maxdepth in 0..3 an entry is handed to check_file exactly once iff its level (1 = directly inside the root) lies in the window - nothing else, nothing twice', units=['walk'], complete=False, bound='one scripted tree (6 nodes, 3 levels), all 16 windows'),
+    ob('C01.walk.window.dfs', 'verif_frag::walk::c01_walk_window_dfs', 'the same for depth-first traversal', units=['walk'], complete=False, bound='one scripted tree (6 nodes, 3 levels), all 16 windows'),
+    ob('C01.walk.order', 'verif_frag::walk::c01_walk_order', 'the whole real visit_dir on the scripted tree: dfs lists the content of a directory right after the directory, bfs level by level', units=['walk'], complete=False, bound='one scripted tree'),
 ]
-CANARIES = [dict(harness=GW + 'canary_gates_must_fail', units=['gate_report']), dict(harness=GD + 'canary_depth_must_fail', units=['gate_depth']), dict(harness='verif_frag::traversal::canary_traversal_must_fail', units=['traversal'])]
+CANARIES = [dict(harness='verif_frag::walk::canary_walk_must_fail', units=['walk']), dict(harness=GW + 'canary_gates_must_fail', units=['gate_report']), dict(harness=GD + 'canary_depth_must_fail', units=['gate_depth']), dict(harness='verif_frag::traversal::canary_traversal_must_fail', units=['traversal'])]
 ASSUMPTIONS = [
     'skeleton of visit_dir (unverified, T5): entries of a directory at depth d are reported exactly under the report gate and each sub-directory is visited exactly under the descend gate',
     'canonical_depth >= base_depth (false when a followed symlink leads above the root): required by C01.depth.formula, not proved',
